@@ -18,8 +18,8 @@ ENTRY = {
         "_extra_overlay": _ASYNC_OVERLAY,
         "quick": T(16, 180), "thorough": T(16, 900),
         "rule": "one execution = one complete interleaving (at synchronisation-operation granularity, iteratively preemption-bounded, all select alternatives) of the "
-                "producer thread with the real asyncbufio.writeLoop goroutine, for one (writer type, queue depth, record count, flush position); the file is read back "
-                "when Flush and Close return; non-trivial = at least one preemption or at least one rejected write (queue full); tick scenarios: a clock thread under the same "
+                "producer thread with the real asyncbufio.writeLoop goroutine, for one (writer type, queue depth, record count, flush position; for the writers behind a DataPublisher also: pause position, resume position); the file is read back "
+                "when Flush and Close return (also when the Flush is issued while writing is paused: records published while paused are not accepted, everything accepted before is due); non-trivial = at least one preemption or at least one rejected write (queue full); tick scenarios: a clock thread under the same "
                 "scheduler additionally offers 1-2 periodic-flush ticks, every call into the bufio.Writer and every atomic operation of asyncbufio.go is a scheduling point as well; "
                 "non-trivial there = writeLoop took its periodic-flush case at least once",
         "assumptions": ["queue depth constant (1000) made settable and explored at 2..12; Write/Flush/Close/writeLoop/flush and the three WriteRecord functions are the real code",
@@ -27,6 +27,9 @@ ENTRY = {
                         "number of ticks (1; 2 for the bare asynchronous writer) at arbitrary points of the execution, through a channel with the real ticker's one-element buffer; there the consumer can "
                         "also be stalled immediately before every bufio Write / Flush call (between draining the queue and the disk write) and at every atomic operation; these scenarios are small "
                         "(1-2 records, one queue depth per format, preemption bound 3); in all other scenarios the real 3 s ticker is used and does not fire within an execution",
+                        "pausing (publisher-level writers only): DataPublisher.SetPause(true/false) is called by the producer between two PublishData calls, as the PAUSE / UNPAUSE requests reach a channel between "
+                        "two blocks; nothing is demanded of the files when SetPause itself returns (it is not a flush call of the property), only when the explicit Flush that follows and the close return; "
+                        "a record published while paused counts as not accepted (PublishData stores nothing then), so any byte of it in a file is reported",
                         "one producer per writer (as in dastard: a channel's records are published by one goroutine at a time)"],
         "technique": "stateless model checking of the real goroutines under a controlled scheduler (preemption-bounded DFS over scheduling and select choices)",
     },
